@@ -32,9 +32,34 @@ func Repo() string {
 
 func Harness() string { return filepath.Join(Root(), "harness") }
 func SpecDir() string { return filepath.Join(Root(), "spec") }
+// Tag isolates a run (scratch dirs, generated probe packages, evidence) so
+// that several runs - e.g. against scratch worktrees via VERIF_REPO - can
+// proceed side by side. Empty for the registered checks.
+func Tag() string { return os.Getenv("VERIF_TAG") }
+
 func Work(parts ...string) string {
-	p := filepath.Join(append([]string{Root(), ".work"}, parts...)...)
+	w := ".work"
+	if t := Tag(); t != "" {
+		w = ".work-" + t
+	}
+	p := filepath.Join(append([]string{Root(), w}, parts...)...)
 	return p
+}
+
+// EvidenceDir is /verif/evidence, or a scratch location for tagged runs.
+func EvidenceDir() string {
+	if Tag() != "" {
+		return Work("evidence")
+	}
+	return filepath.Join(Root(), "evidence")
+}
+
+// GenName prefixes generated probe package names for tagged runs.
+func GenName(name string) string {
+	if t := Tag(); t != "" {
+		return "t" + t + "_" + name
+	}
+	return name
 }
 
 func Seed() int64 {
@@ -63,7 +88,11 @@ func GoEnv() []string {
 		}
 		out = append(out, e)
 	}
-	return append(out, "GOFLAGS=-mod=mod", "GOPROXY=off")
+	flags := "GOFLAGS=-mod=mod"
+	if mf := os.Getenv("VERIF_MODFILE"); mf != "" {
+		flags += " -modfile=" + mf
+	}
+	return append(out, flags, "GOPROXY=off")
 }
 
 // RunCmd runs a command with a timeout, returning combined output.
